@@ -286,26 +286,26 @@ theorem restore_char_panics_on_continuation_byte (inp : Input) (b p : Nat) (h : 
 /-- `take_while` over ASCII classes ends on a scalar boundary (digits, hex digits, identifier
 bytes, operator bytes: all `< 128`). -/
 theorem scan_ascii_class_keeps_boundary (inp : Input) (keep : Nat → Bool)
-    (hk : ∀ b, keep b = true → b < 128) (l : Loc) (hv : VAt inp l.abs) :
+    (hk : ∀ b, keep b = true → b < 128) (l : Tokenizer.Loc) (hv : VAt inp l.abs) :
     Lands inp l (scanUntil inp (fun b => !keep b) l) :=
   scanUntil_keepAscii (fun b hb => hk b (by simpa using hb)) l hv
 
 /-- `take_until` with an ASCII terminator (`"`, `\`, newline, `*`) steps over whole scalars and
 ends on a scalar boundary. -/
 theorem scan_to_ascii_terminator_keeps_boundary (inp : Input) (term : Nat → Bool)
-    (ht : ∀ b, 128 ≤ b → term b = false) (l : Loc) (hv : VAt inp l.abs) :
+    (ht : ∀ b, 128 ≤ b → term b = false) (l : Tokenizer.Loc) (hv : VAt inp l.abs) :
     Lands inp l (scanUntil inp term l) :=
   scanUntil_stopAscii ht _ l rfl hv
 
 /-- token.rs:525 `escape_code`: for every text and every boundary it returns (never panics) and
 leaves the tokenizer on a scalar boundary not before where it started. -/
-theorem escape_code_total (inp : Input) (start l : Loc) (hv : VAt inp l.abs) :
+theorem escape_code_total (inp : Input) (start l : Tokenizer.Loc) (hv : VAt inp l.abs) :
     ∃ b l' es, escapeCode inp start l = .ok (b, l', es) ∧ Lands inp l l' :=
   escapeCode_total start hv
 
 /-- token.rs:638 `char_literal`: same (all four `restore_char`/`bump` paths; D22 was the
 `Some((end, next))` arm). -/
-theorem char_literal_total (inp : Input) (start l : Loc) (hv : VAt inp l.abs) :
+theorem char_literal_total (inp : Input) (start l : Tokenizer.Loc) (hv : VAt inp l.abs) :
     ∃ o, charLiteral inp start l = .ok o ∧ Lands inp l o.loc :=
   charLiteral_total start hv
 
